@@ -9,8 +9,9 @@ function
 * the arithmetic in front of a guard mirrors the C statement including its integer width: `(int)x` is `trunc32`,
   `size_t` arithmetic is `truncU64`, and a *signed* C operation whose mathematical result does not fit its type is
   the explicit outcome `Err.ub` (undefined behaviour, reported by UBSan on the real driver), never silently wrapped;
-  the "counted from the end" subtractions `size - i` are the REGENERATED `rev_*` (done in uint64_t by the C code since
-  the repair of C01-ub-index-signed-overflow: they wrap by definition, `revSitesUnsigned` records the C type);
+  the "counted from the end" subtractions `size - i` are the REGENERATED `rev_*`: done in uint64_t in
+  push_indexed_lvalue (they wrap by definition), through the saturating helper `range_from_end` (REGENERATED
+  `rangeFromEnd`) in f_range / f_extract_range; `revSitesUnsigned` / `revSitesHelper` record which shape each site has;
 * an access is (target allocation, offset, width, read|write) in element units (svalues for arrays, bytes otherwise).
 
 The model mirrors the code that exists, with the build's configuration (OLD_RANGE_BEHAVIOR is defined).
@@ -115,7 +116,8 @@ def lindexCore (k : Kind) (onStack : Bool) (size ind v : Int) : R :=
   | .buf =>
     if (if onStack then guard_sindex_buf ind size else guard_lindex_buf ind size) then
       .error (.lpc (if onStack then msg_sindex_buf else msg_lindex_buf))
-    else if !byteStoreOk v then .error (.lpc "*Strings cannot contain 0 bytes.")
+    -- buffers accept a 0 byte when the NUL tests exempt them (REGENERATED `bufNulStoreAllowed`)
+    else if !bufNulStoreAllowed && !byteStoreOk v then .error (.lpc "*Strings cannot contain 0 bytes.")
     else .ok ⟨[wr .owner ind 1], .stored ind (v % 256)⟩
   | .arr =>
     if (if onStack then guard_sindex_arr ind size else guard_lindex_arr ind size) then
